@@ -144,7 +144,7 @@ func (r *engRun) addTarget() *engTarget {
 	pkg := p.Pkgs[rng.Intn(len(p.Pkgs))]
 	id := p.nextID
 	p.nextID++
-	t := &engTarget{ID: id, Pkg: pkg, Name: fmt.Sprintf("t%d", id), K: 1 + rng.Intn(5), Style: rng.Intn(4), Helper: rng.Intn(3) == 0}
+	t := &engTarget{ID: id, Pkg: pkg, Name: fmt.Sprintf("t%d", id), K: 1 + rng.Intn(5), Style: rng.Intn(5), Helper: rng.Intn(3) == 0}
 	if t.Style == 2 {
 		t.Helper = true
 	}
